@@ -19,6 +19,13 @@ CLAIMED = {
         "content, offset and operation argument within the bound, deriving two values from one parent leaves the parent and the "
         "first derivative unchanged; decided per path by SMT, counterexamples replayed natively.",
         "L<=3, offset in [-2,2], index in [-4,6], histories of 2-3 operations; frozen modelled; Go 1.24 append growth rule"),
+    "C04": (
+        "Bounded symbolic execution of the eight real join operators (New*Expr -> BinExpr.Eval -> Joiner -> Relation.Join / "
+        "positionalRelation joins / GenericJoin / Merge) on relations over every partition shape and both column orders, against "
+        "the set-comprehension definition computed in the harness (count, membership of every expected tuple, equality); "
+        "SMT-decided per path, counterexamples replayed natively.",
+        "4 left x 5 right headings over {a,b,c,d}, 1..2 rows per side, cells in {0,1}; nest/unnest and sugar-heading operands "
+        "(@, @item ...) are not in the registered bound; rank is checked under C06"),
     "C05": (
         "Bounded symbolic execution of the real SetCall/CallAll (String, Bytes, Array, Dict, Relation), SeqArrowExpr.Eval (>>), "
         "Concatenate (++) and OffsetExpr.Eval (n\\seq) against a denotation oracle on (index, value) pairs: unique-value-or-error "
@@ -34,6 +41,13 @@ CLAIMED = {
         "SMT-decided per path, counterexamples replayed natively.",
         "numbers: any non-NaN float64 at top level, integers in [-2,2] nested; sequences L<=2; sets/dicts/relations <=2 members; "
         "relations of 2..4 rows for rank/orderby; NaN excluded by assumption"),
+    "C09": (
+        "Bounded symbolic execution of the real ArrayPattern/TuplePattern/SetPattern/ExprPattern/IdentPattern/"
+        "ExtraElementPattern/FallbackPattern.Bind and Scope.MatchedUpdate against a reference matcher written from the language "
+        "definition: Bind succeeds iff the reference matches, every name is bound to the reference value, ...rest is exactly the "
+        "remainder, a fallback (an outer variable) is used only for an absent component; SMT-decided per path, native replay.",
+        "8 array patterns x arrays of 0..3 items, 6 tuple patterns x tuples over {x,y,z}, 4 set patterns x subsets of {0,1,2}; "
+        "dict patterns, nesting, repeated names and compilePattern (AST -> pattern) are outside the registered bound"),
     "C12": (
         "Partial (string-literal codec kernel): bounded symbolic execution of the real printer (String/Bytes/Array.Format, "
         "reprString/reprStr/reprEscape) and the real literal reader syntax.parseArraiString: every string of 1..2 arbitrary "
